@@ -175,6 +175,22 @@ def r4(ctx):
     for ch in prog.children(eb):  # the same loop written as events.iter().for_each(|..| ..)
         sets += [b for b in call_sites(ch, r"Cell::set$") if mentions(ctx.sym(ch).call_expr(b.term), lambda s: s[0] == "agg" and s[2] == "Unselected")]
     ctx.check(bool(sets), "EventBuffer::reset:unselect", "every record is set to Unselected", eb.where(line=eb.line))
+    # ... every record: the store is conditional on nothing but the iteration itself, and the loop is left only when the iterator is
+    # exhausted (selections need not be a prefix of the buffer: a READ of one class, of one type, a limited count)
+    for b in [b for b in sets if b in eb.calls()]:
+        extra = [g for g in ctx.guards_at(eb, b.idx) if not (g.kind == "is" and g.name in ("Some", "Continue") and g.a is not None and mentions_call(g.a, r"::next$"))]
+        ctx.check(not extra, "EventBuffer::reset:unconditional", "the Unselected store is conditional on nothing but the iteration", eb.where(b.idx), bad_detail="the store is gated by %s: records the condition skips keep their Selected/Written state after an aborted series" % fmt_guards(extra)[:3])
+        lp = innermost_loop(eb, b.idx)
+        if lp is not None:
+            _h, blocks_ = lp if isinstance(lp, tuple) else (None, lp)
+            exits = [(x, s_) for x in blocks_ for s_ in eb.succs(x) if s_ not in blocks_ and eb.blocks[s_].term.kind != "unreachable"]
+            gi_ = ctx.gi(eb)
+            okx = True
+            for x, s_ in exits:
+                gs_ = [g for g in gi_.all_guards() if g.edge == (x, s_)]
+                if not any(g.kind == "is" and g.name in ("None", "Break") and g.a is not None and mentions_call(g.a, r"::next$") for g in gs_):
+                    okx = False
+            ctx.check(okx and bool(exits), "EventBuffer::reset:whole-buffer", "the un-select loop ends only when the iterator is exhausted", eb.where(b.idx), bad_detail="the un-select loop can be left before the iterator is exhausted: records behind that point keep their Selected/Written state after an aborted series (never offered again, then released by an unrelated confirm)")
     z = [b for b in call_sites(eb, r"Counters::zero$") if mentions_field(sym.call_expr(b.term), "written")]
     ret = return_blocks(eb)
     ctx.check(bool(z) and all(eb.block_dominates(z[0].idx, r) for r in ret), "EventBuffer::reset:zero-written", "written counters are zeroed on every path", eb.where(line=eb.line))
@@ -466,3 +482,36 @@ RULES = [
     ("C03.R13", "T4-namesake", "per-type and per-class event counters are touched only under their namesake variant / type", r13),
     ("C03.R14", "T8", "READ responses are recorded with their series state (shared with C11.R9)", r14),
 ]
+
+
+def r15(ctx):
+    """'reported ... with the value it had': an event written under the header of one variation with the bytes of another of the same
+    size arrives with a different value. The namesake rule is C09.R15 (shared code)."""
+    import c09
+    c09.r15(ctx)
+
+
+RULES.append(("C03.R15", "T4-namesake", "an event variation arm writes the object type of its own name (shared with C09.R15)", r15))
+
+
+def r16(ctx):
+    """'reported oldest first': events are written into a fragment in buffer order and the first one that does not fit ends the
+    fragment - after a failed Event::write the write loop is left, so no younger (smaller) event can overtake an older one that did
+    not fit. (EventWriter also latches Full; this is the buffer-side half, sufficient on its own.)"""
+    prog = ctx.prog
+    bd = prog.abody("EventBuffer::write_events")
+    ws = call_sites(bd, r"event::buffer::Event::write$")
+    bodies = [(bd, w) for w in ws]
+    for ch in prog.children(bd):  # the same loop written with iterator combinators
+        bodies += [(ch, w) for w in call_sites(ch, r"event::buffer::Event::write$")]
+    if len(bodies) != 1:
+        raise AnchorError("write_events: Event::write sites %d" % len(bodies))
+    body, w = bodies[0]
+    fails = arm_edges(ctx, body, g_is(lambda x: mentions_call(x, r"event::buffer::Event::write$"), "Err"))
+    ctx.check(bool(fails), "write_events:fail-edge", "the failure of Event::write is tested", body.where(w.idx))
+    for g in fails:
+        again = w.idx in body.reachable(g.edge[1])
+        ctx.check(not again, "write_events:stop-at-first-failure", "after a failed write no further event is written into this fragment", body.where(g.edge[0]), bad_detail="after an event failed to fit the loop goes on to the next one: a younger, smaller event is transmitted (and released) before the older one")
+
+
+RULES.append(("C03.R16", "T2-loop", "the fragment ends at the first event that does not fit (oldest first)", r16))
